@@ -14,7 +14,8 @@ for d in sorted(glob.glob(os.path.join(HERE,"seeded","C*-*"))):
     except Exception: pass
     confirmed="CONFIRMED" in conf and "NOT-CONFIRMED" not in conf
     det=[]; inc=[]
-    for f in ("checks_quick.log","checks_rerun.log"):
+    logs=("checks_final.log",) if os.path.exists(os.path.join(d,"checks_final.log")) and os.path.getsize(os.path.join(d,"checks_final.log"))>0 else ("checks_quick.log","checks_rerun.log")
+    for f in logs:
         try:
             for l in open(os.path.join(d,f)):
                 m=re.search(r" (C\d\d) exit=(\d)",l)
